@@ -188,3 +188,38 @@ def sse_jsonrpc_messages(text: str) -> List[Any]:
             continue
         out.append(obj)
     return out
+
+
+# --------------------------------------------------------------------------
+# inbound acceptance classes
+# --------------------------------------------------------------------------
+def inbound_class(obj: Any) -> str:
+    """'valid'   - a well-formed JSON-RPC 2.0 message: must be delivered
+       'lenient' - structurally a request/notification/response but with a missing or
+                   non-"2.0" jsonrpc member: the statement does not say whether the library may
+                   tolerate these (its own tests pin that it does), so either outcome is accepted
+       'invalid' - everything else: must never be delivered"""
+    if classify(obj)[0] is not None:
+        return "valid"
+    if isinstance(obj, dict) and obj.get("jsonrpc", "2.0") != "2.0" or \
+            (isinstance(obj, dict) and "jsonrpc" not in obj):
+        probe = dict(obj)
+        probe["jsonrpc"] = "2.0"
+        if classify(probe)[0] is not None:
+            return "lenient"
+    return "invalid"
+
+
+def seq_match(got: List[Any], items: List[Tuple[Any, bool]], eq=None) -> Tuple[bool, str]:
+    """got must equal `items` with every required item present, optional ones present or not,
+    in order.  items: (value, required)."""
+    eq = eq or (lambda a, b: a == b)
+    p = 0
+    for val, required in items:
+        if p < len(got) and eq(got[p], val):
+            p += 1
+        elif required:
+            return False, f"missing or out of order: {val!r} (next delivered: {got[p] if p < len(got) else None!r})"
+    if p != len(got):
+        return False, f"unexpected delivery: {got[p]!r}"
+    return True, ""
